@@ -117,6 +117,9 @@ C15-persist-skips-complete-hash-names C13
 C16-partial-order-sorted-check-by-inversion C16
 C17-uncopyable-value-falls-back-to-live-object C17
 C20-shared-default-black-mode-leaks-between-projects C20
+C02-single-level-paren-expansion C02
+C18-trim-check-reverse-compare-unguarded C18
+C19-run-inline-dedupes-aliased-tests C19
 LIST
 # a seeded change that leaves stray temporary files behind (C18 round 3) writes them to the default temp dir
 find /tmp -maxdepth 1 -type f -name 'tmp*.py' -delete 2>/dev/null
